@@ -211,7 +211,18 @@ class PortPart:
                     port = pmod.Port(env, rate, case["qlimit"], case["limit_bytes"], case["eid"])
             except Exception as e:
                 return {"log": [], "raised": [type(e).__name__, str(e)[:300]], "exhausted": False, "where": "constructor"}
-            port.out = h.tap("out")
+            tap = h.tap("out")
+            _tap_put = tap.put
+
+            def _put_and_read(p):
+                # what the port advertises at the very moment it hands the packet on (a downstream element that reacts
+                # inside its own put() -- an echo, a loop back into this port, a monitor hook -- sees exactly this)
+                at = [port.byte_size, int(port.busy)]
+                _tap_put(p)
+                if h.cur_outs:
+                    h.cur_outs[-1].append(["at-forward"] + at)
+            tap.put = _put_and_read
+            port.out = tap
             h.attach(port)
             h.watch_store("store", port.store)
             m = case.get("mon")
@@ -395,8 +406,25 @@ class PortPart:
         p = mp if avg >= mx else mp * (avg - mn) / (mx - mn)
         return True, (u is not None and u <= p)
 
-    def _monitor_c09(self, case, obs):
+    def _at_forward(self, case, obs):
+        """the advertised byte occupancy must already exclude a packet at the moment it is forwarded"""
         msgs = []
+        specs = case["workload"]["packets"]
+        prev_bytes = 0
+        for e in obs["log"]:
+            outs = e[2] if e[0] in ("put", "step") else []
+            for o in outs:
+                if o[0] == "out" and isinstance(o[-1], list) and o[-1] and o[-1][0] == "at-forward":
+                    sz = specs[str(o[2])]["size"]
+                    if o[-1][1] != prev_bytes - sz:
+                        msgs.append(f"port-bytes-at-forward: while packet {o[2]} (size {sz}) is handed on, byte_size reads {o[-1][1]}; "
+                                    f"{prev_bytes} bytes were held before and the packet has left: expected {prev_bytes - sz}")
+            if e[0] in ("adv", "put", "step"):
+                prev_bytes = e[-1][2]
+        return msgs[:1]
+
+    def _monitor_c09(self, case, obs):
+        msgs = self._at_forward(case, obs)
         specs = case["workload"]["packets"]
         rate = F(case["rate"])
         ql, lb = case["qlimit"], case["limit_bytes"]
